@@ -257,3 +257,21 @@ PROPS["C06"] = {
     "floors": [("methods", "call/mocked/value-receiver", 50), ("methods", "call/mocked/unexported-method", 50), ("methods", "call/mocked/unexported-type", 30),
                ("methods", "callall", 200)],
 }
+
+PROPS["C07"] = {
+    "prepare": [prep_corpus],
+    "units": [
+        {"name": "histories", "pkg": "./zverif/c07", "run": "^TestVerifC07$", "timeout": {"quick": 400, "thorough": 2400},
+         "shards": {"quick": 1, "thorough": 16}},
+    ],
+    "rule": "rapid histories of 2..18 operations over one of 8 generated interface types (1..7 methods in arbitrary name order, unexported and embedded "
+            "methods) with three variables of that type (initially nil or holding a real implementation) and two builders: mock a method by Apply "
+            "(capturing closure) or As().Return, call a method, call every method of every variable, Reset, drop a builder and run GC + heap churn, "
+            "GC + churn. Oracle: model {variable -> {slot -> replacement}}: variable non-nil after the first mock; a mocked slot reaches its own "
+            "replacement with the caller's arguments; an unmocked slot panics with 'method not implements'; variables are independent; after "
+            "Reset the variable's two words equal the pre-mock words; mocks survive dropped builders and collections. Non-trivial: a history with "
+            "an unmocked-slot call, a Reset of a mocked variable or a drop+GC; distinct by (interface, op sequence).",
+    "assumptions": ["process death (e.g. a stub jumping through collected memory) is turned into a violation by re-executing the journalled case"],
+    "floors": [("histories", "call/unmocked-slot-panics", 100), ("histories", "call/mocked-slot-after-gc", 100),
+               ("histories", "call/mocked-slot-after-builder-dropped", 50), ("histories", "variable-with->=2-mocked-slots", 100)],
+}
